@@ -298,8 +298,10 @@ fn main_check(ctx: &Ctx) -> Outcome {
     let viol = std::sync::Mutex::new(Vec::<Finding>::new());
     let distinct = std::sync::Mutex::new(std::collections::HashSet::<u64>::new());
     for (alphabet_name, focus, l) in [("single bytes", focus_bytes, if quick { 6 } else { 7 }), ("whole sequences", focus_macro, if quick { 5 } else { 6 })] {
-        let inputs: Vec<Vec<usize>> = strings_upto(focus.len(), l).filter(|c| !c.is_empty()).collect();
-        inputs.par_iter().for_each(|inp| {
+        // (index-decoded: the list of 12^7 inputs would take gigabytes)
+        let n_inputs = count_upto(focus.len(), l);
+        (1..n_inputs).into_par_iter().for_each(|ii| {
+            let inp = &string_upto_at(focus.len(), l, ii);
             let toks: Vec<&[u8]> = inp.iter().map(|&i| focus[i]).collect();
             let whole: Vec<u8> = toks.concat();
             let r = guard(|| {
@@ -400,7 +402,7 @@ fn main_check(ctx: &Ctx) -> Outcome {
                 }
             }
         });
-        out.push_part(json!({"system":"all partitions vs one-shot (StripBytes, StrippedBytes::extend, StripStream, WinconBytes, StripStr)","alphabet":alphabet_name,"inputs":inputs.len(),"max_tokens":l,"focus_alphabet":focus.len()}));
+        out.push_part(json!({"system":"all partitions vs one-shot (StripBytes, StrippedBytes::extend, StripStream, WinconBytes, StripStr)","alphabet":alphabet_name,"inputs":n_inputs - 1,"max_tokens":l,"focus_alphabet":focus.len()}));
 
     }
     let mut v = viol.into_inner().unwrap();
